@@ -72,7 +72,8 @@ def fintlist(alist):
         # we have a string (comma-separated integers)
         alist = alist.strip().strip("[] ").split(",")
     for it in alist:
-        if it:
+        # skip empty strings (e.g. from an empty list "[]"), but keep 0
+        if not (isinstance(it, str) and not it.strip()):
             outlist.append(fint(it))
     return outlist
 
